@@ -368,7 +368,18 @@ func runStorm(c *stormCase, rec *evid.Recorder) (*stormResult, *evid.Fail) {
 				if stalled(posWait) {
 					return res, evid.Failf("harness-stall", "machine stalled")
 				}
-				return res, evid.Failf("no-reply", "request never answered: client %d stream %d %s%s script %v; backend saw [%s]\n%s", s.Client, s.Stream, s.Req.Kind, s.Req.Local, s.Req.Script, traceString(e.Cluster.Attempts(s.Req.Token)), proxyStacks())
+				diag := ""
+				if as := e.Cluster.Attempts(s.Req.Token); len(as) > 0 {
+					last := as[len(as)-1]
+					live := false
+					for _, cn := range e.Cluster.Host(last.Host).Conns() {
+						if cn.ID == last.Conn {
+							live = true
+						}
+					}
+					diag = fmt.Sprintf("last attempt on conn %d (live=%v, reply recorded=%v); still held tokens %v; client frames %d", last.Conn, live, last.ReplyHdr != nil, e.Cluster.HeldTokens(), runners[s.Client].c.NumFrames())
+				}
+				return res, evid.Failf("no-reply", "request never answered: client %d stream %d %s%s token %s script %v; backend saw [%s]; %s\n%s", s.Client, s.Stream, s.Req.Kind, s.Req.Local, s.Req.Token, s.Req.Script, traceString(e.Cluster.Attempts(s.Req.Token)), diag, proxyStacks())
 			}
 			time.Sleep(300 * time.Microsecond)
 		}
